@@ -123,7 +123,7 @@ func (rn *Runner) runHonest(scRaw interface{}) {
 	var mc *mail.Client
 	var curCfg refsmtp.Config
 	var curSrv *refsmtp.Server
-	if sc.Via == "client" { // mail.Client builds the Auth object itself, on every dial
+	if sc.Via == "client" || sc.Via == "custom" { // mail.Client builds the Auth object itself, on every dial - or is handed one ("custom")
 		at := map[string]mail.SMTPAuthType{"PLAIN": mail.SMTPAuthPlainNoEnc, "LOGIN": mail.SMTPAuthLoginNoEnc, "CRAM-MD5": mail.SMTPAuthCramMD5,
 			"XOAUTH2": mail.SMTPAuthXOAUTH2, "SCRAM-SHA-1": mail.SMTPAuthSCRAMSHA1, "SCRAM-SHA-256": mail.SMTPAuthSCRAMSHA256,
 			"SCRAM-SHA-1-PLUS": mail.SMTPAuthSCRAMSHA1PLUS, "SCRAM-SHA-256-PLUS": mail.SMTPAuthSCRAMSHA256PLUS}[sc.Mech]
@@ -133,8 +133,23 @@ func (rn *Runner) runHonest(scRaw interface{}) {
 			return conn, err
 		}
 		var err error
-		mc, err = mail.NewClient("mail.example.test", mail.WithDialContextFunc(dial), mail.WithTLSPolicy(mail.NoTLS),
-			mail.WithSMTPAuth(at), mail.WithUsername(cu), mail.WithPassword(cp), mail.WithHELO("client.test"), mail.WithTimeout(20*time.Second))
+		if sc.Via == "custom" && !strings.HasSuffix(sc.Mech, "-PLUS") { // (a -PLUS object is bound to a connection that does not exist yet)
+			custom := mechAuth(sc.Mech, cu, cp, nil).(smtp.Auth)
+			if rn.T%2 == 0 {
+				mc, err = mail.NewClient("mail.example.test", mail.WithDialContextFunc(dial), mail.WithTLSPolicy(mail.NoTLS),
+					mail.WithSMTPAuthCustom(custom), mail.WithHELO("client.test"), mail.WithTimeout(20*time.Second))
+			} else {
+				mc, err = mail.NewClient("mail.example.test", mail.WithDialContextFunc(dial), mail.WithTLSPolicy(mail.NoTLS),
+					mail.WithSMTPAuth(mail.SMTPAuthPlain), mail.WithUsername("somebody else"), mail.WithPassword("something else"),
+					mail.WithHELO("client.test"), mail.WithTimeout(20*time.Second))
+				if err == nil {
+					mc.SetSMTPAuthCustom(custom)
+				}
+			}
+		} else {
+			mc, err = mail.NewClient("mail.example.test", mail.WithDialContextFunc(dial), mail.WithTLSPolicy(mail.NoTLS),
+				mail.WithSMTPAuth(at), mail.WithUsername(cu), mail.WithPassword(cp), mail.WithHELO("client.test"), mail.WithTimeout(20*time.Second))
+		}
 		if err != nil {
 			rn.Infra = err
 			return
